@@ -366,6 +366,10 @@ func (m *model) evalSlot(n Node, cx mctx) ([]*hx.N, error) {
 	props := map[string]any{}
 	optional := map[string]bool{}
 	for _, kv := range n.Bind {
+		if kv.Lit {
+			props[kv.K] = kv.V
+			continue
+		}
 		v, err := cx.env.path(kv.V)
 		if kv.O && (err != nil || v == nil) {
 			// this use binds nothing for the prop: it is absent, whatever an earlier use bound
